@@ -11,7 +11,7 @@ RULE = ("(a) pass: random programs (anonymous and native gate sets) with subcirc
         "non-trivial = program contains a subcircuit block; distinct = S-expression + mode")
 ASSUMPTIONS = ["reference expansion in vf/meaning.py", "harness native gate set (vf/gateset.py)"]
 TIERS = {"quick": {"shards": 8, "budget_s": 45}, "thorough": {"shards": 16, "budget_s": 300}}
-REQUIRE = {"sub-in-macro": 20, "sub-in-loop": 20, "mode:pass": 200, "mode:exec": 100, "native-bounding-gates": 50,
+REQUIRE = {"calls-after-earlier-call-on-same-object": 500, "sub-in-macro": 20, "sub-in-loop": 20, "mode:pass": 200, "mode:exec": 100, "native-bounding-gates": 50,
            "caller-bounding-gates": 20, "exec-readouts-compared": 100}
 
 NATIVE = None
@@ -118,6 +118,12 @@ def judge_pass(case):
     elif caller == "names" and use_native:
         args = ("prepare_all", "measure_all")
     fails = []
+    if case.get("prior"):
+        # an earlier call on the SAME circuit object with other bounding gates must leave nothing behind
+        if args:
+            lib.outcome(lib.expand_subcircuits, c)
+        else:
+            lib.outcome(lib.expand_subcircuits, c, GateDefinition("other_prep"), GateDefinition("other_meas"))
     o = lib.outcome(lib.expand_subcircuits, c, *args)
     if o[0] == "jaqal":
         return "ok", [("rejected-valid-program", {"error": o[2]})]
@@ -304,10 +310,15 @@ def process(ctx, case, seen):
             rec.count("unminimised-repeat:" + clause)
             continue
         base = {k: v for k, v in case.items() if k != "prog"}
+        if base.get("prior") and clause in _clauses(dict(base, prog=prog, prior=False)):
+            base.pop("prior")
         small = minimise.minimise(prog, lambda p: clause in _clauses(dict(base, prog=p)), budget=200)
         small_case = dict(base, prog=small)
         d2 = [x for x in judge(small_case)[1] if x[0] == clause]
-        rec.violation(sig("C09", clause, prog_features(small)), d2[0][1] if d2 else detail, small_case)
+        feats = prog_features(small)
+        if base.get("prior"):
+            feats.add("after-earlier-call-on-same-object")
+        rec.violation(sig("C09", clause, feats), d2[0][1] if d2 else detail, small_case)
 
 
 def shard(ctx):
@@ -331,6 +342,9 @@ def shard(ctx):
             g = gen.ExecGen(rng, max_depth=rng.choice([1, 2, 3]), reg_size=(1, 4), loop_counts=(0, 1, 2, 3),
                             body_len=(1, 4))
             case = {"prog": g.program(), "mode": "exec", "npseed": rng.randrange(1 << 30)}
+        if case["mode"] == "pass" and rng.random() < 0.3:
+            case["prior"] = True
+            rec.count("calls-after-earlier-call-on-same-object")
         process(ctx, case, seen)
         if i <= 3:
             rec.sample({k: v for k, v in case.items() if k != "prog"} | {"text": sx.to_text(case["prog"])})
